@@ -117,7 +117,8 @@ struct Model
             sz = c->size();
             em = c->empty();
         }
-        s << "\"size\":" << sz << ",\"empty\":" << (em ? 1 : 0) << ",\"cap\":" << c->capacity() << ",\"obs\":[" << obs.str()
+        s << "\"size\":" << sz << ",\"size2\":" << c->size() << ",\"empty\":" << (em ? 1 : 0) << ",\"cap\":" << c->capacity()
+          << ",\"obs\":[" << obs.str()
           << "],\"skip\":[" << skip.str() << "]";
         return s.str();
     }
